@@ -321,6 +321,75 @@ Theorem C10_gen_append_lengths : forall b n B off e, ridx b <= widx b ->
 Proof. exact gen_append_lengths. Qed.
 Print Assumptions C10_gen_append_lengths.
 
+(* ---- the statement TREES (review E-3): Gen_C10.<f>_tree is the control structure of member function f
+   with every generated fact at its place (SAssert / SSet member / SLet local / SCall callee [integer args] /
+   SIf cond then else / SRet / SOther).  [exec B tree b L] interprets a tree on a MODEL buffer: conditions and
+   expressions on [buf_obs b B L] (L holds the parameters / locals by name), SSet stores an index, SCall runs the
+   MODEL's function of that name ([call_sem]), SAssert stops with Failed; data movement (SOther: std::copy,
+   memcpy) is not interpreted, so the comparison is on the index skeleton [sk] = (readerIndex_, writerIndex_,
+   buffer_.size()) -- [agrees].  The interpreted tree of the CURRENT source IS the model's function: swapping the
+   branches of an if, moving a statement across a branch, dropping or duplicating an index store or a call
+   breaks these. *)
+Theorem C10_tree_retrieve : forall b n B e,
+  agrees (exec B retrieve_tree b (set_len (Zn n) e)) (retrieve n b).
+Proof. exact tree_retrieve. Qed.
+Print Assumptions C10_tree_retrieve.
+
+Theorem C10_tree_ensureWritableBytes : forall b n B e,
+  agrees (exec B ensureWritableBytes_tree b (set_len (Zn n) e)) (ensureWritable n b).
+Proof. exact tree_ensureWritableBytes. Qed.
+Print Assumptions C10_tree_ensureWritableBytes.
+
+Theorem C10_tree_makeSpace : forall b len B e, ridx b <= widx b -> widx b <= length (store b) ->
+  agrees (exec B makeSpace_tree b (set_len (Zn len) e)) (makeSpace len b).
+Proof. exact tree_makeSpace. Qed.
+Print Assumptions C10_tree_makeSpace.
+
+(* readFd: [n] = the result of readv, supplied by name (the tree has SHavoc "n"); the returned value is compared too *)
+Theorem C10_tree_readFd : forall b l k B e, Inv b l ->
+  let nZ := match k with KData avail => Zn (length (firstn (readFd_capacity b) avail)) | KErr _ => (-1)%Z end in
+  agrees_rd (exec B readFd_tree b (set_n nZ e)) (readFd k b).
+Proof. exact tree_readFd. Qed.
+Print Assumptions C10_tree_readFd.
+
+Theorem C10_tree_straight_line : forall b l n d off B e, Inv b l ->
+  agrees (exec B hasWritten_tree b (set_len (Zn n) e)) (hasWritten_idx n b) /\
+  agrees (exec B unwrite_tree b (set_len (Zn n) e)) (unwrite n b) /\
+  agrees (exec B prepend_tree b (set_len (Zn (length d)) e)) (prepend d b) /\
+  agrees (exec B append2_char_tree b (set_len (Zn (length d)) e)) (append d b) /\
+  agrees (exec B retrieveUntil_tree b (set_end (B + Zn (ridx b) + off)%Z e)) (retrieveUntil off b) /\
+  exec B retrieveAll_tree b e = Done (mkBuf (store b) (ridx (retrieveAll b)) (widx (retrieveAll b)) (up b)) e.
+Proof.
+  intros b l n d off B e HI. pose proof (inv_sizes b l HI) as (S1 & S2 & _).
+  exact (conj (tree_hasWritten b n B e) (conj (tree_unwrite b n B e S1) (conj (tree_prepend b d B e S1 S2)
+        (conj (tree_append b l d B e HI) (conj (tree_retrieveUntil b off B e S1) (tree_retrieveAll b B e)))))).
+Qed.
+Print Assumptions C10_tree_straight_line.
+
+(* hasWritten_idx is hasWrittenBytes without the bytes *)
+Theorem C10_hasWritten_idx : forall d b,
+  match hasWrittenBytes d b with
+  | Ok b1 => exists b2, hasWritten_idx (length d) b = Ok b2 /\ sk b1 = sk b2
+  | Rejected => hasWritten_idx (length d) b = Rejected
+  | Fault => True
+  end.
+Proof. exact hasWritten_idx_spec. Qed.
+Print Assumptions C10_hasWritten_idx.
+
+(* both branches of retrieve / makeSpace are taken by the interpreter on concrete buffers *)
+Example ex_tree_branches : forall e,
+  let b := mkBuf (repeat x00 40) 12 20 0 in           (* readable 8, writable 20, prependable 12 *)
+  exec 0%Z retrieve_tree b (set_len 3%Z e) = Done (mkBuf (store b) 15 20 0) (set_len 3%Z e) /\
+  exec 0%Z retrieve_tree b (set_len 8%Z e) = Done (mkBuf (store b) 8 8 0) (set_len 8%Z e) /\
+  exec 0%Z retrieve_tree b (set_len 9%Z e) = Failed /\
+  exec 0%Z makeSpace_tree b (set_len 24%Z e) = Done (mkBuf (store b) 8 16 0) (set_readable 8%Z (set_len 24%Z e)) /\   (* compaction *)
+  match exec 0%Z makeSpace_tree b (set_len 25%Z e) with Done b' _ => sk b' = (12, 20, 45) | _ => False end.       (* growth *)
+Proof.
+  intro e. cbn zeta.
+  split; [vm_compute; reflexivity|]. split; [vm_compute; reflexivity|]. split; [vm_compute; reflexivity|].
+  split; [vm_compute; reflexivity|]. vm_compute. reflexivity.
+Qed.
+
 (* ---- the int casts of toStringPiece() / shrink() (review B-3) -----------------------------
    Buffer.h:174 static_cast<int>(readableBytes()), Buffer.h:179/367 int StringPiece::size().
    [step] (all theorems above) ignores them; [step_c] models them (length wrapped to a signed
@@ -456,3 +525,18 @@ Example ex_unused : exists st outs,
     [Append (repeat x41 12); Retrieve 10; Append (repeat x42 12);
      Append (repeat x43 30); ReadFd (KData (repeat x44 70)); Shrink 3; Swap] = true.
 Proof. vm_compute. eexists _, _. split; reflexivity. Qed.
+
+(* (last, because the string literals need Coq.Strings.String, whose [length] / [append] would shadow the list ones) *)
+From Coq Require Import String.
+(* the bodies that move data: presence and place of the copy / swap / nested calls, compared syntactically *)
+Theorem C10_tree_shapes :
+  shape makeSpace_tree = ["if{"; "call:buffer.resize"; "}else{"; "assert"; "let:readable"; "other:copy"; "set:readerIndex";
+                          "set:writerIndex"; "assert"; "}"]%string /\
+  shape prepend_tree = ["assert"; "set:readerIndex"; "havoc:d"; "other:copy"]%string /\
+  shape append2_char_tree = ["call:ensureWritableBytes"; "other:copy"; "call:hasWritten"]%string /\
+  shape shrink_tree = ["havoc:other"; "call:other.ensureWritableBytes"; "call:toStringPiece"; "call:other.append"; "call:swap"]%string /\
+  shape swap_tree = ["call:buffer.swap"; "other:swap"; "other:swap"]%string /\
+  shape retrieveAsString_tree = ["assert"; "havoc:result"; "call:retrieve"; "other:return"]%string.
+Proof. exact tree_shapes. Qed.
+Print Assumptions C10_tree_shapes.
+
